@@ -627,3 +627,42 @@ impl Read for FrameDecoder {
         }
     }
 }
+
+#[cfg(ruzstd_verif)]
+impl FrameDecoder {
+    /// verification hook: a summary of the entropy tables in the scratch space.
+    /// Per FSE table (literal lengths, offsets, match lengths):
+    /// `[accuracy_log, decode.len(), max(base_line + 2^num_bits), max symbol, max num_bits, rle byte or -1]`;
+    /// then the Huffman table: `[max_num_bits, decode.len(), min num_bits, max num_bits, 0, -1]`.
+    pub fn verif_scratch_summary(&self) -> Option<[[i64; 6]; 4]> {
+        let state = self.state.as_ref()?;
+        let fse = &state.decoder_scratch.fse;
+        let one = |t: &crate::fse::FSETable, rle: Option<u8>| -> [i64; 6] {
+            let mut reach = 0i64;
+            let mut sym = 0i64;
+            let mut bits = 0i64;
+            for e in t.decode.iter() {
+                reach = reach.max(e.base_line as i64 + (1i64 << (e.num_bits as i64).min(40)));
+                sym = sym.max(e.symbol as i64);
+                bits = bits.max(e.num_bits as i64);
+            }
+            [
+                t.accuracy_log as i64,
+                t.decode.len() as i64,
+                reach,
+                sym,
+                bits,
+                rle.map(|b| b as i64).unwrap_or(-1),
+            ]
+        };
+        let (max_bits, entries) = state.decoder_scratch.huf.table.verif_dump();
+        let lo = entries.iter().map(|e| e.1 as i64).min().unwrap_or(0);
+        let hi = entries.iter().map(|e| e.1 as i64).max().unwrap_or(0);
+        Some([
+            one(&fse.literal_lengths, fse.ll_rle),
+            one(&fse.offsets, fse.of_rle),
+            one(&fse.match_lengths, fse.ml_rle),
+            [max_bits as i64, entries.len() as i64, lo, hi, 0, -1],
+        ])
+    }
+}
